@@ -1,0 +1,179 @@
+//! Verification hooks.
+//!
+//! This module only exists when the crate is compiled with `--cfg deltio_verif`.
+//! It provides an event recorder that the actors and managers report their
+//! state transitions to, an override for the actor mailbox capacity and
+//! schedule points. Without an installed recorder/controller everything in
+//! here is a no-op.
+use serde_json::{Map, Value};
+use std::cell::{Cell, RefCell};
+use std::future::Future;
+use std::pin::Pin;
+use std::sync::atomic::{AtomicU64, AtomicUsize, Ordering};
+use std::sync::{Arc, Mutex};
+use std::task::{Context, Poll};
+use tokio::time::Instant;
+
+/// Collects the events reported through [`emit`].
+pub struct Recorder {
+    /// The instant that event times are relative to.
+    epoch: Instant,
+    /// The next sequence number.
+    seq: AtomicU64,
+    /// The recorded events, in order.
+    events: Mutex<Vec<Value>>,
+}
+
+impl Recorder {
+    /// Creates a new recorder; event times are relative to `epoch`.
+    pub fn new(epoch: Instant) -> Arc<Self> {
+        Arc::new(Self {
+            epoch,
+            seq: AtomicU64::new(0),
+            events: Mutex::new(Vec::new()),
+        })
+    }
+
+    /// Milliseconds between the recorder's epoch and the given instant.
+    pub fn ms(&self, instant: Instant) -> u64 {
+        instant.saturating_duration_since(self.epoch).as_millis() as u64
+    }
+
+    /// Appends an event. The sequence number is assigned under the same lock
+    /// that orders the events.
+    pub fn push(&self, kind: &str, fields: Value) {
+        let mut event = Map::new();
+        let mut events = self.events.lock().unwrap();
+        let seq = self.seq.fetch_add(1, Ordering::SeqCst);
+        event.insert("i".into(), Value::from(seq));
+        event.insert("t".into(), Value::from(self.ms(Instant::now())));
+        event.insert("k".into(), Value::from(kind));
+        if let Value::Object(fields) = fields {
+            for (key, value) in fields {
+                event.insert(key, value);
+            }
+        }
+        events.push(Value::Object(event));
+    }
+
+    /// Takes the events recorded so far.
+    pub fn take(&self) -> Vec<Value> {
+        std::mem::take(&mut *self.events.lock().unwrap())
+    }
+}
+
+thread_local! {
+    static LOCAL_RECORDER: RefCell<Option<Arc<Recorder>>> = const { RefCell::new(None) };
+    static LOCAL_CAPACITY: Cell<usize> = const { Cell::new(0) };
+    static LOCAL_CONTROLLER: RefCell<Option<Arc<dyn Controller>>> = const { RefCell::new(None) };
+}
+
+static GLOBAL_RECORDER: Mutex<Option<Arc<Recorder>>> = Mutex::new(None);
+static GLOBAL_CAPACITY: AtomicUsize = AtomicUsize::new(0);
+
+/// Installs (or removes) the recorder for the current thread.
+pub fn install_local(recorder: Option<Arc<Recorder>>) {
+    LOCAL_RECORDER.with(|r| *r.borrow_mut() = recorder);
+}
+
+/// Installs (or removes) the process-wide recorder, used by threads without a local one.
+pub fn install_global(recorder: Option<Arc<Recorder>>) {
+    *GLOBAL_RECORDER.lock().unwrap() = recorder;
+}
+
+fn recorder() -> Option<Arc<Recorder>> {
+    let local = LOCAL_RECORDER.with(|r| r.borrow().clone());
+    local.or_else(|| GLOBAL_RECORDER.lock().unwrap().clone())
+}
+
+/// Whether a recorder is installed.
+pub fn on() -> bool {
+    recorder().is_some()
+}
+
+/// Reports an event; `fields` is only evaluated when a recorder is installed.
+pub fn emit(kind: &str, fields: impl FnOnce(&Recorder) -> Value) {
+    if let Some(recorder) = recorder() {
+        let fields = fields(&recorder);
+        recorder.push(kind, fields);
+    }
+}
+
+/// Overrides the mailbox capacity for actors started from the current thread (0 = no override).
+pub fn set_local_capacity(capacity: usize) {
+    LOCAL_CAPACITY.with(|c| c.set(capacity));
+}
+
+/// Overrides the mailbox capacity process-wide (0 = no override).
+pub fn set_global_capacity(capacity: usize) {
+    GLOBAL_CAPACITY.store(capacity, Ordering::SeqCst);
+}
+
+/// The mailbox capacity to use for a new actor.
+pub fn capacity(default: usize) -> usize {
+    match LOCAL_CAPACITY.with(|c| c.get()) {
+        0 => match GLOBAL_CAPACITY.load(Ordering::SeqCst) {
+            0 => default,
+            n => n,
+        },
+        n => n,
+    }
+}
+
+/// Decides when a task that reached a schedule point may continue.
+pub trait Controller: Send + Sync {
+    /// Polled like a future: `true` lets the task pass the named point.
+    fn poll_point(&self, name: &'static str, id: u64, cx: &mut Context<'_>) -> bool;
+
+    /// Called at a synchronous window between two critical sections.
+    fn sync_point(&self, _name: &'static str, _id: u64) {}
+}
+
+/// Installs (or removes) the schedule controller for the current thread.
+pub fn install_local_controller(controller: Option<Arc<dyn Controller>>) {
+    LOCAL_CONTROLLER.with(|c| *c.borrow_mut() = controller);
+}
+
+fn controller() -> Option<Arc<dyn Controller>> {
+    LOCAL_CONTROLLER.with(|c| c.borrow().clone())
+}
+
+/// A schedule point: ready at once unless a controller is installed.
+pub fn point(name: &'static str, id: u64) -> Point {
+    Point {
+        name,
+        id,
+        controller: controller(),
+    }
+}
+
+/// A synchronous window marker: no-op unless a controller is installed.
+pub fn sync_point(name: &'static str, id: u64) {
+    if let Some(controller) = controller() {
+        controller.sync_point(name, id);
+    }
+}
+
+/// Future returned by [`point`].
+pub struct Point {
+    name: &'static str,
+    id: u64,
+    controller: Option<Arc<dyn Controller>>,
+}
+
+impl Future for Point {
+    type Output = ();
+
+    fn poll(self: Pin<&mut Self>, cx: &mut Context<'_>) -> Poll<()> {
+        match &self.controller {
+            None => Poll::Ready(()),
+            Some(controller) => {
+                if controller.poll_point(self.name, self.id, cx) {
+                    Poll::Ready(())
+                } else {
+                    Poll::Pending
+                }
+            }
+        }
+    }
+}
